@@ -1,12 +1,12 @@
-(* Private extraction file of the sigdef slice (C16) - copy of Extract.v naming only
+(* Private extraction file of the sd_sigdef slice (C16) - copy of Extract.v naming only
    this slice's entry points.  At integration add to coq/Extract.v:
      From JLS Require Import SigDef.   and in the Extraction list
-     SigDef.sd_define SigDef.sd_align_fast SigDef.sample_size SigDef.consistent_clauses
-     SigDef.consistentb SigDef.entry256b SigDef.guard_bits SigDef.sd_guardb SigDef.sd_loop_args SigDef.sd_validate *)
+     SigDef.sd_define SigDef.sd_align_fast SigDef.sd_validate SigDef.sd_defaults SigDef.sample_size
+     SigDef.consistent_clauses SigDef.consistentb SigDef.entry256b SigDef.sd_loop_args *)
 From Coq Require Import Extraction ExtrOcamlBasic NArith ZArith List.
 From JLS Require Import Generated SigDef.
 Extraction Language OCaml.
 Extraction "jlsmodel_ext"
   BinInt.Z.add BinInt.Z.opp BinInt.Z.of_N BinInt.Z.to_N BinNat.N.add BinNat.N.mul BinNat.N.of_nat BinNat.N.to_nat
-  SigDef.sd_define SigDef.sd_align_fast SigDef.sample_size SigDef.consistent_clauses
-  SigDef.consistentb SigDef.entry256b SigDef.guard_bits SigDef.sd_guardb SigDef.sd_loop_args SigDef.sd_validate.
+  SigDef.sd_define SigDef.sd_align_fast SigDef.sd_validate SigDef.sd_defaults SigDef.sample_size
+  SigDef.consistent_clauses SigDef.consistentb SigDef.entry256b SigDef.sd_loop_args.
